@@ -23,6 +23,14 @@ def one(m):
                 import alts_c
                 x, y = (alts_c.pool_region if old == "__POOL__" else alts_c.store_region)(s)
                 open(p, "w").write(s[:x] + new + "\n" + s[y:]); continue
+            if isinstance(old, tuple):
+                x, y = old
+                if y == "\x00EOF":
+                    s = s + y
+                if s.count(x) != 1 or s.count(y) < 1:
+                    res["suite"] = f"EDIT-ERROR: region markers occur {s.count(x)}x/{s.count(y)}x in {fn}"; return res
+                i = s.index(x); j = s.index(y, i + len(x))
+                open(p, "w").write((s[:i] + new + s[j:]).replace("\x00EOF", "")); continue
             if s.count(old) != 1:
                 res["suite"] = f"EDIT-ERROR: pattern occurs {s.count(old)}x in {fn}"; return res
             open(p, "w").write(s.replace(old, new))
